@@ -102,6 +102,22 @@ def vcase(ctx, config, pk32, msg, sig, cls, nontrivial=True):
     ctx.ev("schnorr_verify", cls, nontrivial, pk32, msg, sig)
     ctx.check(v.ret == (1 if exp else 0), "schnorr_verify:%s:%s" % (cls, "accepted_invalid" if v.ret else "rejected_valid"),
               "pk=%s msglen=%d msg=%s sig=%s model=%s lib=%d" % (pk32.hex(), len(msg), msg[:64].hex(), sig.hex(), exp, v.ret), config)
+    # verification needs no signing tables: the same verdict on a byte copy of secp256k1_context_static (verify-only callers)
+    if ctx.rng.random() < 0.15:
+        slot = _static_slot(ctx, config)
+        if slot is not None:
+            v2 = ctx.call("schnorr_verify", sig, msg, xo, config=config, c=slot)
+            if v2 is not None:
+                ctx.ev("schnorr_verify", "static_context:" + cls.split(":")[0], nontrivial, pk32, msg, sig, b"static")
+                ctx.check(v2.ret == (1 if exp else 0), "schnorr_verify:static_context:%s" % ("accepted_invalid" if v2.ret else "rejected_valid"), "pk=%s sig=%s model=%s" % (pk32.hex(), sig.hex(), exp), config)
+
+def _static_slot(ctx, config):
+    key = "_static_slot_" + config
+    if not hasattr(ctx, key) or ctx.sh(config).nstarts != getattr(ctx, key)[1]:
+        r = ctx.call("ctx_static_copy", config=config)
+        if r is None: return None
+        setattr(ctx, key, (r.i(0), ctx.sh(config).nstarts))
+    return getattr(ctx, key)[0]
 
 def off_curve_x(rng):
     while True:
